@@ -367,10 +367,6 @@ func ProbeMain(args []string) {
 		}
 		f.Close()
 	}
-	// fail fast on multi-GiB allocations: 1 GiB of address space is 100x what a
-	// legitimate call needs (inputs <= 64 KiB, bound 8 MiB + 1024*len)
-	lim := uint64(1) << 30
-	_ = syscall.Setrlimit(syscall.RLIMIT_AS, &syscall.Rlimit{Cur: lim, Max: lim})
 	env := &runner.Env{RepoDir: args[1], Tier: args[2], Seed: 1}
 	s, err := loadSeeds(env)
 	if err != nil {
